@@ -36,7 +36,23 @@ def _maxdeg(fn, tname):
 def _build(case):
     t = case["type"]
     terms = case["terms"]
-    return dict(terms) if t == "dict" else cls_of(t)(terms)
+    if t == "dict":
+        return dict(terms)
+    M = cls_of(t)(terms)
+    mp = case.get("mapping")
+    if mp and hasattr(M, "set_mapping"):
+        # a user-chosen enumeration of the variables (documented API): reversed or rotated label -> integer mapping
+        labels = sorted(M.mapping, key=lambda l: M.mapping[l])
+        n = len(labels)
+        if mp == "reversed":
+            new = {l: n - 1 - i for i, l in enumerate(labels)}
+        else:
+            new = {l: (i + 1) % n for i, l in enumerate(labels)}
+        if mp.endswith("_rev_api"):
+            M.set_reverse_mapping({v: k for k, v in new.items()})
+        else:
+            M.set_mapping(new)
+    return M
 
 
 def _expected_vars(case):
@@ -312,8 +328,16 @@ def _gen_main(ctx, salt="c11.main", only_matrix=False, n_quick=60, n_thorough=12
                                                 init="none", in_order=True, seed=3))
                 yield _mk(fn, tname, terms, _kw(rng, vs, spin))
                 yield _mk(fn, tname, terms, _kw(rng, vs, spin, in_order=False))
+            k = 0
             for terms in _random_models(rng, fn, tname, ctx.pick(n_quick, n_thorough)):
-                yield _mk(fn, tname, terms, _kw(rng, _vars_for(tname, terms), spin))
+                c = _mk(fn, tname, terms, _kw(rng, _vars_for(tname, terms), spin))
+                yield c
+                k += 1
+                if tname not in MATRIX and tname != "dict" and len(variables_of(terms)) >= 2:
+                    # the same model with a permuted label -> integer mapping (set_mapping / set_reverse_mapping)
+                    c2 = dict(c)
+                    c2["mapping"] = ("reversed", "rotated", "rotated_rev_api")[k % 3]
+                    yield c2
 
 
 def _has_vars(case):
